@@ -22,6 +22,7 @@ import json
 
 import egsim  # noqa: F401
 from egsim import engine, gen
+from egsim.props.common import deep_tier
 from egsim.seams import InjectedFault
 from edgegraph.structure import singleton
 
@@ -187,7 +188,8 @@ class C17(engine.Property):
         elif r < 0.6:
             pool |= {3, 4, 5}  # 1 / 1.0 / True: equal values
         return {
-            "steps": gen.geometric_steps(rng, 3, 50, 14),
+            "steps": gen.geometric_steps(rng, 3, 50, 14) if not (deep_tier() and rng.random() < 0.25) else gen.geometric_steps(rng, 30, 170, 60),
+            "deep_bounds": True,
             "classes": sorted(rng.sample(CLASS_NAMES, k)),
             "pool": sorted(pool),
             "p_kwargs": rng.choice([0.0, 0.3, 0.6]),
